@@ -150,7 +150,84 @@ def run(ctx, replay):
                     ctx.count_case((cap, last_op, tuple(evs), prev), nontrivial=len(evs) > 1,
                                    sample={"capacity": cap, "statement": last_op, "start": prev, "events": evs, "end": state})
                 prev = state
+    # ---- array statements (every array/reduction/indexed/where/FixedArray recording site) through the C03 driver
+    acaps = [2, 3, 64] if ctx.tier == "quick" else [2, 3, 7, 64]
+    try:
+        import c03, arrayadcommon as ac
+        with ThreadPoolExecutor(max_workers=len(acaps)) as ex:
+            aexes = list(ex.map(lambda c: ac.build(stack_len=c), acaps))
+        ncase = 60 if ctx.tier == "quick" else 500
+        acases = []
+        for _ in range(ncase):
+            ops0, _g = c03.gen_case(ctx.rng, ctx.rng.choice(["default", "default", "fixed-indexed"]))
+            ops1 = []
+            for o in ops0:
+                if o.startswith("jac") or o.startswith("geom"):
+                    continue
+                ops1.append(o)
+                if ac.is_stmt(o) or o == "nr":
+                    ops1.append("ev")
+            acases.append(ops1)
+        atext = "".join("\n".join(c) + "\n" for c in acases)
+        aouts = [vcheck.run_impl(exe, [], atext) for exe in aexes]
+        stmt_lines = {}
+        for cap, (impl, rc, err) in zip(acaps, aouts):
+            pos = 0
+            for pi, ops in enumerate(acases):
+                il = impl[pos:pos + len(ops)]
+                pos += len(ops)
+                if len(il) < len(ops):
+                    if nbad < 3:
+                        nbad += 1
+                        ctx.violation("the array driver stopped while recording with initial capacity %d: rc=%s %s"
+                                      % (cap, rc, vcheck.san_summary(err)),
+                                      {"kind": "crash", "family": "arrayad", "capacity": cap, "ops": ops, "stderr": err[-3000:]})
+                    break
+                prev, last_op = None, None
+                for oi, (o, l) in enumerate(zip(ops, il)):
+                    if o != "ev":
+                        last_op = o
+                        if ac.is_stmt(o):
+                            # what was recorded (tape part of the statement line) must not depend on the capacity
+                            tpart = l.split(" | T ", 1)[1].split(" | A ", 1)[0] if " | T " in l else l[:200]
+                            stmt_lines.setdefault((pi, oi), {})[cap] = tpart
+                        continue
+                    pe = parse_E(l)
+                    if pe is None:
+                        continue
+                    state, evs = pe
+                    faults = [e for e in evs if e.startswith("F")]
+                    if faults and nbad < 3:
+                        nbad += 1
+                        ctx.violation("array statement %r wrote outside the operation buffer with initial capacity %d (event %s: "
+                                      "index/allocated)" % (last_op, cap, faults[0]),
+                                      {"kind": "oracle", "family": "arrayad", "capacity": cap, "ops": ops[:oi + 1],
+                                       "statement": last_op, "events": evs[:80], "state_after": state})
+                    if prev is not None and evs and not faults and last_op:
+                        queries.append("runfrom %d %d %d %d %s" % (prev + (" ".join(evs),)))
+                        qmeta.append(("run", cap, ("A", pi), last_op, state, evs))
+                        queries.append("judge " + " ".join(evs))
+                        qmeta.append(("judge", cap, ("A", pi), last_op, state, evs))
+                        kind = last_op.split()[0]
+                        ctx.notes.setdefault("array_statement_kinds_hit", {})
+                        ctx.notes["array_statement_kinds_hit"][kind] = ctx.notes["array_statement_kinds_hit"].get(kind, 0) + 1
+                        ctx.count_case((cap, last_op, tuple(evs), prev), nontrivial=len(evs) > 1,
+                                       sample={"capacity": cap, "statement": last_op, "start": prev, "events": evs[:30], "end": state})
+                    prev = state
+        for (pi, oi), dct in stmt_lines.items():
+            if len(set(dct.values())) > 1 and nbad < 3:
+                nbad += 1
+                ctx.violation("what an array statement records depends on the initial capacity: %s" % {c: t[:80] for c, t in dct.items()},
+                              {"kind": "oracle", "family": "arrayad", "ops": acases[pi][:oi + 1], "tapes": dct})
+        progs_all = {"A": acases}
+    except ImportError as e:
+        ctx.notes["array_sites"] = "C03 driver not available: %s" % e
+        progs_all = {}
     ml = vcheck.run_model("recbuf", "\n".join(queries) + "\n") if queries else []
+    def prog_of(pi):
+        if isinstance(pi, tuple):
+            return progs_all.get(pi[0], [[]])[pi[1]]
+        return progs[pi]
     for q, meta, m in zip(queries, qmeta, ml):
         kind, cap, pi, op, state, evs = meta
         if kind == "run":
@@ -159,20 +236,20 @@ def run(ctx, replay):
                 ctx.cov["disagreements_checked"] += 1
                 if len(ctx.pending) < 2:
                     ctx.pending.append({"kind": "correspondence", "correspondence": "AdeptModel/RecBuf.lean <-> StackStorageOrig (growth/bookkeeping)",
-                                        "capacity": cap, "statement": op, "query": q, "impl_end_state": exp, "model": m, "ops": progs[pi]})
+                                        "capacity": cap, "statement": op, "query": q[:2000], "impl_end_state": exp, "model": m, "ops": prog_of(pi)})
         elif kind == "site":
             if m.split() != evs:
                 ctx.cov["disagreements_checked"] += 1
                 if len(ctx.pending) < 2:
                     ctx.pending.append({"kind": "correspondence", "correspondence": "AdeptModel/RecBufSites.lean <-> recording site of %r" % op,
-                                        "capacity": cap, "statement": op, "impl_events": evs, "model_events": m.split(), "ops": progs[pi]})
+                                        "capacity": cap, "statement": op, "impl_events": evs, "model_events": m.split(), "ops": prog_of(pi)})
         elif kind == "judge":
             if not m.startswith("disciplined=true"):
                 # a logged stream breaks the discipline: the model names an adversarial start if one exists
                 adv = m.split("adversary=")[-1]
                 ctx.violation("the event stream of %r does not keep the reservation discipline (%s)" % (op, m),
                               {"kind": "discipline", "theorem": "C09_disciplined_safe no longer applies to this site",
-                               "statement": op, "events": evs, "model_verdict": m, "ops": progs[pi],
+                               "statement": op, "events": evs[:200], "model_verdict": m, "ops": prog_of(pi),
                                "adversary": adv}, tag="d", no_input=(adv == "none"))
                 nbad += 1
     # derivatives identical whatever the capacity: tape dumps agree across builds
@@ -183,12 +260,14 @@ def run(ctx, replay):
             ctx.violation("the recorded tape depends on the initial capacity: %s" % {c: t[:80] for c, t in d.items()},
                           {"kind": "oracle", "ops": progs[pi], "tapes": d})
     ctx.cov["traces_validated_against_impl"] += len(queries)
-    ctx.cov["rule"] = ("random scalar programs (all statement forms of the tape driver) run in builds with ADEPT_INITIAL_STACK_LENGTH in %s; "
+    ctx.cov["rule"] = ("random scalar programs (all statement forms of the tape driver) and random array programs (the 62 statement kinds of the C03 "
+                       "driver: element-wise, broadcast, compound, where/either_or, indexed, reductions whole and per dimension, spread, "
+                       "outer_product, element access, FixedArray) run in builds with ADEPT_INITIAL_STACK_LENGTH in %s; "
                        "every statement's logged event stream is replayed through the buffer model from the logged start state, compared "
                        "with the site model and judged with `disciplined`; non-trivial = stream with more than one event; distinct = "
                        "different (capacity, statement, stream, start state)" % caps)
     ctx.notes["capacities"] = caps
-    ctx.notes["array_sites"] = "array/reduction/indexed sites are driven through the C03 driver when present (see evidence of that run)"
+    ctx.notes["array_capacities"] = acaps
     ctx.assumptions += ["ADEPT_STACK_STORAGE_STL and ADEPT_MANUAL_MEMORY_ALLOCATION configurations are not covered; capacity 0 is outside the property",
                         "the discipline is sufficient, not necessary: the real buffers have one entry of slack per check"]
     if not ctx.violations:
